@@ -175,8 +175,8 @@ def unrle(s):
     out = []
     if s == "-":
         return out
-    for t in s.split(","):
-        if "*" in t and not t.startswith("PANIC"):
+    for t in s.split("..h")[0].split(","):
+        if "*" in t and not t.startswith("PANIC") and t.rsplit("*", 1)[1].isdigit():
             a, k = t.rsplit("*", 1)
             out += [a] * int(k)
         else:
@@ -326,6 +326,7 @@ def check(run):
     cases = gen_cases(run, thorough)
     profiles = ["dev", "release"] if thorough else ["dev"]
     total_eval, nontriv, reached, kinds, verdicts, seen = 0, set(), {}, {}, {}, {}
+    skipped = 0
     contract_calls, contract_viol, first_cv = 0, 0, None
     nbad = 0
     for prof in profiles:
@@ -340,6 +341,11 @@ def check(run):
         sp = vlib.run_lines(model, sl)
         total_eval += len(cases)
         for c, a, b, s in zip(cases, impl, mod, sp):
+            if a.startswith("res=SKIPPED"):
+                skipped += 1
+                continue
+            if b.startswith("res=SKIPPED"):
+                skipped += 1    # the implementation's answer is still judged by the spec below
             kinds[c[0]] = kinds.get(c[0], 0) + 1
             ia, _ = split_answer(a)
             mb, mfacts = split_answer(b)
@@ -365,6 +371,8 @@ def check(run):
                 if vlib.match_known(PROP, cd) is not None or seen[key] <= 3:
                     run.report("spec-violation", cd, {"impl": a[:3000], "model": b[:3000], "spec": s},
                                what="adapter session violates the C11 specification (coq/spec/IOSpec.v): " + s)
+            elif b.startswith("res=SKIPPED"):
+                pass
             elif ia != mb:
                 nbad += 1
                 if sum(1 for v in run.violations if v[0] == "correspondence") < 5:
@@ -382,6 +390,7 @@ def check(run):
     run.cov["reached"] = reached
     run.cov["spec_verdicts"] = verdicts
     run.cov["exhaustive"] = False
+    run.cov["skipped_after_repeated_hangs"] = skipped
     samp = [cases[0], cases[len(cases) // 3], cases[len(cases) // 2], cases[(3 * len(cases)) // 4]]
     run.cov["samples"] = [s if len(s) < 300 else s[:300] + "..." for s in samp]
     if not ok_proof and not [v for v in run.violations if v[2]]:
